@@ -343,9 +343,83 @@ def t_observed_data(rng, v21):
     return d
 
 
-V21_ONLY = ("Infrastructure", "Location", "MalwareAnalysis", "ObservedData")
+def base_sco(rng, typ):
+    return {"type": typ, "spec_version": "2.1", "id": "%s--%s" % (typ, uuid(rng))}
 
-TEMPLATES = [("Campaign", t_campaign), ("IntrusionSet", t_intrusion_set), ("ThreatActor", t_threat_actor),
+
+# 2.1 observables carry granular_markings too and have their own _check_object_constraints; each with and
+# without extensions (the extension branch of the class's own constraint code)
+def t_artifact(rng, v21):
+    d = base_sco(rng, "artifact")
+    if rng.random() < 0.6:
+        d["mime_type"] = "text/plain"
+        d["payload_bin"] = "aGVsbG8="
+    else:
+        d["url"] = "http://x.example/a"
+        d["hashes"] = {"SHA-256": "a" * 64}
+    return d
+
+
+def t_email_message(rng, v21):
+    d = base_sco(rng, "email-message")
+    d["is_multipart"] = False
+    d["subject"] = rng.choice(["s", ""])
+    if rng.random() < 0.5:
+        d["body"] = "b"
+    return d
+
+
+def t_file(rng, v21):
+    d = base_sco(rng, "file")
+    d["name"] = "a.txt"
+    if rng.random() < 0.4:
+        d["hashes"] = {"SHA-256": "b" * 64, "MD5": "c" * 32}
+    if rng.random() < 0.4:
+        d["size"] = rng.choice([0, 10])
+    if rng.random() < 0.5:
+        d["extensions"] = rng.choice([{"ntfs-ext": {"sid": "S-1"}},
+                                      {"archive-ext": {"contains_refs": ["file--" + uuid(rng)], "comment": ""}}])
+    return d
+
+
+def t_network_traffic(rng, v21):
+    d = base_sco(rng, "network-traffic")
+    d["protocols"] = rng.choice([["tcp"], ["ipv4", "tcp"]])
+    d["src_ref"] = "ipv4-addr--" + uuid(rng)
+    d["src_port"] = rng.choice([0, 80])
+    if rng.random() < 0.5:
+        d["extensions"] = rng.choice([{"socket-ext": {"address_family": "AF_INET", "is_listening": False}},
+                                      {"tcp-ext": {"src_flags_hex": "00000002"}}])
+    return d
+
+
+def t_process(rng, v21):
+    d = base_sco(rng, "process")
+    d["pid"] = rng.choice([0, 1, 4242])
+    if rng.random() < 0.6:
+        d["command_line"] = "cmd /c x"
+    if rng.random() < 0.55:
+        d["extensions"] = rng.choice([{"windows-process-ext": {"aslr_enabled": rng.choice([True, False]), "priority": "HIGH"}},
+                                      {"windows-service-ext": {"service_name": "svc", "descriptions": ["d", "d"]}}])
+    return d
+
+
+def t_x509(rng, v21):
+    d = base_sco(rng, "x509-certificate")
+    d["serial_number"] = "01"
+    d["issuer"] = "CN=x"
+    if rng.random() < 0.5:
+        d["x509_v3_extensions"] = {"basic_constraints": "critical,CA:TRUE"}
+    return d
+
+
+SCO_CLASSES = ("Artifact", "EmailMessage", "File", "NetworkTraffic", "Process", "X509Certificate")
+SCO_TYPES = ("artifact", "email-message", "file", "network-traffic", "process", "x509-certificate")
+V21_ONLY = ("Infrastructure", "Location", "MalwareAnalysis", "ObservedData") + SCO_CLASSES
+
+TEMPLATES = [("Artifact", t_artifact), ("EmailMessage", t_email_message), ("File", t_file),
+             ("NetworkTraffic", t_network_traffic), ("Process", t_process), ("X509Certificate", t_x509),
+             ("Campaign", t_campaign), ("IntrusionSet", t_intrusion_set), ("ThreatActor", t_threat_actor),
              ("Infrastructure", t_infrastructure), ("Location", t_location), ("MalwareAnalysis", t_malware_analysis),
              ("ObservedData", t_observed_data), ("Indicator", t_indicator), ("Indicator", t_indicator),
              ("Identity", t_identity), ("Malware", t_malware), ("Indicator", t_indicator), ("Report", t_report),
@@ -361,11 +435,20 @@ def gen_build(rng, how=None, want_markings=True):
     d = tmpl(rng, v21)
     how = how or rng.choice(["dict", "dict", "parse", "class", "class"])
     is_md = d["type"] == "marking-definition"
-    if rng.random() < 0.5:
+    is_sco = cls in SCO_CLASSES
+    if not is_sco and rng.random() < 0.5:
         d["created_by_ref"] = "identity--" + uuid(rng)
-    if rng.random() < 0.6:
+    if not is_sco and rng.random() < 0.6:
         d["external_references"] = ext_refs(rng)
-    if not is_md:
+    if is_sco:
+        # custom content only (allow_custom); the SDO common properties do not exist on observables
+        if rng.random() < 0.3:
+            d["x_opts"] = order_dict(rng)
+        if rng.random() < 0.2:
+            d["x_list"] = long_list(rng)
+        if rng.random() < 0.4:
+            d["x_a"] = gen_value(rng, 3, dotted=(how == "dict"))
+    elif not is_md:
         if rng.random() < 0.5 and "labels" not in d:
             d["labels"] = labels(rng)
         if rng.random() < 0.15:
@@ -422,7 +505,8 @@ def gen_build(rng, how=None, want_markings=True):
             d["object_marking_refs"] = omr
         if rng.random() < 0.45:
             cands = [k for k in ("name", "created", "type", "id", "labels", "created_by_ref", "pattern",
-                                 "relationship_type", "external_references", "definition_type") if k in d and d[k]]
+                                 "relationship_type", "external_references", "definition_type", "pid", "protocols",
+                                 "subject", "serial_number", "mime_type", "url", "command_line") if k in d and d[k]]
             gms = []
             for _ in range(rng.choice([1, 1, 2])):
                 sels = sorted(set(rng.sample(cands, min(len(cands), rng.choice([1, 2])))))
@@ -442,6 +526,14 @@ def gen_build(rng, how=None, want_markings=True):
             elif r < 0.5 and how == "dict":
                 gms[0] = dict(gms[0], lang=rng.choice(LANG_MARKINGS), marking_ref=rng.choice(REF_MARKINGS))   # both kinds in one entry
             d["granular_markings"] = gms
+        if how == "dict" and rng.random() < 0.25:
+            # content held as a plain dict is never checked at creation: its own markings may name selectors that
+            # address nothing (a typo, an index past the end, a property that was removed)
+            real_key = rng.choice([k for k in d if k not in ("granular_markings", "object_marking_refs")])
+            dangling = rng.choice(["nonexistent", real_key + "x", real_key + ".[99]", real_key + ".zz", real_key[:-1]])
+            if dangling not in d:
+                sel = rng.choice([[dangling], [real_key, dangling], [dangling, real_key]])
+                d.setdefault("granular_markings", []).append({"marking_ref": rng.choice(REF_MARKINGS), "selectors": sel})
     # the same container instance at two places (kill_chain_phases=[kcp, kcp]; one dict under two keys)
     share = []
     if rng.random() < 0.5:
@@ -521,7 +613,7 @@ def vtype_of(tree):
     knowledge: of the generated types only marking-definition does not.)"""
     for k, v in tree["m"]:
         if k == "type":
-            return not (v["t"] == "str" and v["v"] == "marking-definition")
+            return not (v["t"] == "str" and (v["v"] == "marking-definition" or v["v"] in SCO_TYPES))
     return True
 
 
